@@ -105,9 +105,16 @@ def run_chain(rnd, sampler_kind, tier):
     s.rng = ScriptedRNG(fallback_seed=seed)
     s._v_calls = calls
     with scratch() as tmp, quiet(), np.errstate(all="ignore"):
-        s.sample(os.path.join(tmp, "c.h5"), dist, initial_model=q0.copy(), proposals=P, overwrite_existing_file=True,
-                 disable_progressbar=True, **kwargs)
-    return desc, s._v_transitions, s, userstep
+        try:
+            s.sample(os.path.join(tmp, "c.h5"), dist, initial_model=q0.copy(), proposals=P, overwrite_existing_file=True,
+                     disable_progressbar=True, **kwargs)
+        except Exception as e:  # an aborting sampler is an observation (C06/C08), not a harness failure
+            desc["raised"] = repr(e)
+            try:
+                s.samples.close()
+            except Exception:
+                pass
+    return desc, getattr(s, "_v_transitions", []), s, userstep
 
 
 def last_value(calls, name, arg):
@@ -223,6 +230,9 @@ def run(tier, seed):
         kind = "RWMH" if i % 2 == 0 else "HMC"
         desc, trans, sampler, userstep = run_chain(rnd, kind, tier)
         check_transitions(desc, trans, kind, userstep, st, findings, reqs, metas)
+        if "raised" in desc:
+            st.count("sampler raised (see C06/C08)")
+            continue
         n_acc = sum(1 for t in trans if t["post"]["accepted"] == t["pre"]["accepted"] + 1)
         ends.append((desc, n_acc, int(sampler.accepted_proposals)))
     answers = lean_batch(reqs)
